@@ -231,6 +231,10 @@ def run(ck, tier):
     from .c03 import r3_lookup_pdu_class
     ck.guard(r3_lookup_pdu_class, ck, cx, 'R11', ('ClientDecoder',))
     ck.assume('correctness of decoded values is C01/C02; behaviour over all reply contents and histories is not decided')
+    from .. import ownership as _own
+    ck.guard(_own.rule_instance_owned, ck, cx, 'R12', _own.DECODERS[1:] + _own.MANAGERS, "a reply is decoded with a class another client registered (values the server never sent), or bookkeeping of another client's transactions leaks into this one", 4)
+    from .c13 import r14_client_decoder_contains
+    ck.guard(r14_client_decoder_contains, ck, cx, 'R13')
     return cx.idx
 
 
